@@ -30,7 +30,8 @@ CONSTANT DirDev
 DevNames == {"iwb_returns_input", "iwb_counts_escaped", "escaper_drops_apos",
              "callee_inherits", "truncate_cancels", "escapehtml_keeps_autoescape",
              "nonstring_raw", "truncate_off_by_one", "uri_space_raw", "js_quote_raw",
-             "nl2br_unescaped", "ns_attr_ignored", "deprecated_contextual_unspecified"}
+             "nl2br_unescaped", "ns_attr_ignored", "deprecated_contextual_unspecified",
+             "nonstring_input_raw", "placeholder_name_ignores_directives"}
 
 (***************************************************************************)
 (* Directives: [name, args] with args a sequence of values.                *)
@@ -41,8 +42,30 @@ D0(name) == Dir(name, <<>>)
 BuiltinNames == {"insertWordBreaks", "changeNewlineToBr", "truncate", "id", "noAutoescape",
                  "escapeHtml", "escapeUri", "escapeJsString", "json"}
 
+(***************************************************************************)
+(* Directives registered by the embedder (soyhtml.PrintDirectives is an    *)
+(* open map).  The harness registers exactly these six; what each does and *)
+(* its CancelAutoescape flag are the embedder's choice -- the model takes  *)
+(* the flag from the registration, and the print command must treat a      *)
+(* registered directive exactly like a built-in one: if no directive of    *)
+(* the chain cancels, the RESULT is escaped, whatever kind the printed     *)
+(* value had.                                                              *)
+(*   vfAppend:a     text(v) \o text(a)              does not cancel         *)
+(*   vfQuote        "text(v)" in double quotes      does not cancel         *)
+(*   vfIdent        v unchanged (any kind)          does not cancel         *)
+(*   vfList         the list [v, '<i>'] (non-string) does not cancel        *)
+(*   vfRawAppend:a  text(v) \o text(a)              cancels                 *)
+(*   vfRawIdent     v unchanged                     cancels                 *)
+(***************************************************************************)
+CustomNames == {"vfAppend", "vfQuote", "vfIdent", "vfList", "vfRawAppend", "vfRawIdent"}
+AllNames == BuiltinNames \cup CustomNames
+CustomCancel == [vfAppend |-> FALSE, vfQuote |-> FALSE, vfIdent |-> FALSE, vfList |-> FALSE,
+                 vfRawAppend |-> TRUE, vfRawIdent |-> TRUE]
+
 CancelsAutoescape ==
-  [insertWordBreaks |-> TRUE, changeNewlineToBr |-> TRUE,
+  [vfAppend |-> FALSE, vfQuote |-> FALSE, vfIdent |-> FALSE, vfList |-> FALSE,
+   vfRawAppend |-> TRUE, vfRawIdent |-> TRUE,
+   insertWordBreaks |-> TRUE, changeNewlineToBr |-> TRUE,
    truncate |-> ("truncate_cancels" \in DirDev),
    id |-> TRUE, noAutoescape |-> TRUE,
    escapeHtml |-> ("escapehtml_keeps_autoescape" \notin DirDev),
@@ -50,12 +73,15 @@ CancelsAutoescape ==
 
 ArgCounts == [insertWordBreaks |-> {1}, changeNewlineToBr |-> {0}, truncate |-> {1, 2},
               id |-> {0}, noAutoescape |-> {0}, escapeHtml |-> {0}, escapeUri |-> {0},
-              escapeJsString |-> {0}, json |-> {0}]
+              escapeJsString |-> {0}, json |-> {0},
+              vfAppend |-> {1}, vfQuote |-> {0}, vfIdent |-> {0}, vfList |-> {0},
+              vfRawAppend |-> {1}, vfRawIdent |-> {0}]
 
 \* a directive application the language defines (everything else: no claim)
 InRange(d) ==
-  /\ d.name \in BuiltinNames
+  /\ d.name \in AllNames
   /\ Len(d.args) \in ArgCounts[d.name]
+  /\ d.name \in {"vfAppend", "vfRawAppend"} => Printable(d.args[1]) /\ AllKnown(ToText(d.args[1]), 1)
   /\ d.name = "insertWordBreaks" => d.args[1].t = "int" /\ d.args[1].v >= 1
   /\ d.name = "truncate" => /\ d.args[1].t = "int" /\ d.args[1].v >= 1
                             /\ Len(d.args) = 2 => d.args[2].t = "bool"
@@ -142,6 +168,10 @@ Apply(d, v) ==
     [] d.name = "truncate" ->
          LET t == TruncateRef(ToText(v), TruncN(d), TruncEll(d)) IN
          IF t = ToText(v) THEN v ELSE S(t)
+    [] d.name \in {"vfAppend", "vfRawAppend"} -> S(ToText(v) \o ToText(d.args[1]))
+    [] d.name = "vfQuote" -> S("\"" \o ToText(v) \o "\"")
+    [] d.name \in {"vfIdent", "vfRawIdent"} -> v
+    [] d.name = "vfList" -> L(<<v, S("<i>")>>)
 
 RECURSIVE ApplyChainFrom(_, _, _)
 ApplyChainFrom(chain, v, i) == IF i > Len(chain) THEN v ELSE ApplyChainFrom(chain, Apply(chain[i], v), i + 1)
@@ -169,7 +199,10 @@ Cancels(chain) == \E i \in DOMAIN chain : CancelsAutoescape[chain[i].name]
 
 PrintText(escOn, chain, v) ==
   LET r == ApplyChain(chain, v)
-      raw == "nonstring_raw" \in DirDev /\ r.t # "str" IN
+      \* deviations: escaping skipped because of the kind of the RESULT / decided
+      \* on the kind of the printed value BEFORE the directives ran
+      raw == \/ ("nonstring_raw" \in DirDev /\ r.t # "str")
+             \/ ("nonstring_input_raw" \in DirDev /\ v.t \in {"int", "float", "bool", "null"}) IN
   IF escOn /\ ~Cancels(chain) /\ ~raw THEN AutoEscape(ToText(r)) ELSE ToText(r)
 
 (***************************************************************************)
@@ -217,7 +250,8 @@ CalleeEscape(callerNs, callerT, calleeNs, calleeT) ==
 (***************************************************************************)
 HtmlProducing == {"escapeHtml", "changeNewlineToBr", "insertWordBreaks"}
 Transparent   == {"noAutoescape", "id"}
-CancelsDoc    == [n \in BuiltinNames |-> n # "truncate"]     \* the documented table (no deviations)
+\* the documented table for the built-ins, the registered flag for the embedder's (no deviations)
+CancelsDoc    == [n \in AllNames |-> IF n \in BuiltinNames THEN n # "truncate" ELSE CustomCancel[n]]
 
 LastHtml(chain) ==
   LET ks == {k \in DOMAIN chain : chain[k].name \in HtmlProducing /\
@@ -277,6 +311,7 @@ DirContract(d, v, out) ==
          IF ~JsSafe(out) THEN "f" ELSE IF ~JsKnown(out) THEN "u" ELSE TF(JsDenote(out) = s)
     [] d.name = "truncate" ->
          IF ~AllKnown(s, 1) THEN "u" ELSE TF(TruncateOK(s, TruncN(d), TruncEll(d), out))
+    [] OTHER -> "u"          \* embedder-registered directives have no contract of the language
 
 \* why a contract is violated (the structural feature of a finding)
 ContractReason(d, v, out) ==
@@ -313,6 +348,7 @@ NoSpecialFrom(s, i) == i > Len(s) \/ (Ch(s, i) \notin HtmlSpecials /\ NoSpecialF
 PinKind(d, v) ==
   CASE d.name \in Transparent -> "exact"
     [] d.name = "truncate" -> "exact"
+    [] d.name \in CustomNames -> "exact"
     [] d.name \in {"escapeHtml", "changeNewlineToBr"} -> "canon"
     [] d.name = "insertWordBreaks" -> IF NoSpecialFrom(ToText(v), 1) THEN "canon" ELSE "contract"
     [] OTHER -> "contract"
@@ -325,7 +361,9 @@ ChainKind(chain, v) ==
 \* Soy source of a directive / chain
 RECURSIVE ArgsText(_, _)
 ArgsText(args, i) == IF i > Len(args) THEN ""
-                     ELSE (IF i > 1 THEN "," ELSE "") \o ToText(args[i]) \o ArgsText(args, i + 1)
+                     ELSE (IF i > 1 THEN "," ELSE "") \o
+                          (IF args[i].t = "str" THEN "'" \o args[i].v \o "'" ELSE ToText(args[i])) \o
+                          ArgsText(args, i + 1)
 DirText(d) == "|" \o d.name \o (IF Len(d.args) > 0 THEN ":" \o ArgsText(d.args, 1) ELSE "")
 RECURSIVE ChainText(_, _)
 ChainText(chain, i) == IF i > Len(chain) THEN "" ELSE DirText(chain[i]) \o ChainText(chain, i + 1)
